@@ -278,6 +278,7 @@ type c20World struct {
 	decoys  map[string]string  // Decoy scenarios: the look-alike secrets as seeded
 	steps   []initializer.Step // Reuse scenarios: the step objects, built once
 	touched map[string]bool    // objects another writer changed during the current run ("S/name", "P/name", "CRD/name", "L", ...)
+	peerAt  func(call int)     // lets the other writers of the window of that call of the current run act (idempotent)
 }
 
 func c20Extra(n int) map[string]string {
@@ -347,11 +348,59 @@ func (w *c20World) seedPkg(x c20Pkg) {
 	o.SetName(x.Name)
 	o.SetSource(x.Raw)
 	if x.Extra != 0 {
+		// an operator has set EVERY field the installer does not declare (to values that are not the CRD defaults)
 		n := int64(x.Extra)
+		tag := strconv.Itoa(x.Extra)
+		manual := pkgv1.ManualActivation
+		never := corev1.PullNever
+		yes := true
 		o.SetRevisionHistoryLimit(&n)
+		o.SetActivationPolicy(&manual)
+		o.SetPackagePullPolicy(&never)
+		o.SetPackagePullSecrets([]corev1.LocalObjectReference{{Name: "pull-" + tag}})
+		o.SetIgnoreCrossplaneConstraints(&yes)
+		o.SetSkipDependencyResolution(&yes)
+		o.SetCommonLabels(map[string]string{"team": "t" + tag})
+		o.SetLabels(map[string]string{c20Label: tag})
+		o.SetAnnotations(map[string]string{c20Label: "note-" + tag})
+		if pwr, ok := o.(pkgv1.PackageWithRuntime); ok {
+			pwr.SetRuntimeConfigRef(&pkgv1.RuntimeConfigReference{Name: "custom-" + tag})
+		}
 	}
 	o.SetConditions(xpv1.Available())
 	w.st.Seed(o)
+}
+
+// c20PkgForeign: every field of a stored package that the installer does not declare (everything in spec but
+// `package`, labels, annotations), by name.
+func c20PkgForeign(u *unstructured.Unstructured) map[string]string {
+	out := map[string]string{}
+	spec, _, _ := unstructured.NestedMap(u.Object, "spec")
+	for k, v := range spec {
+		if k != "package" {
+			out["spec."+k] = mustJSON(v)
+		}
+	}
+	if l := u.GetLabels(); len(l) > 0 {
+		out["metadata.labels"] = mustJSON(l)
+	}
+	if a := u.GetAnnotations(); len(a) > 0 {
+		out["metadata.annotations"] = mustJSON(a)
+	}
+	return out
+}
+
+// c20PkgExtraOf abstracts the undeclared fields of a stored package: n if they are exactly what seedPkg writes
+// for Extra = n (0: none is set), -1 if some field has another value.
+func (w *c20World) pkgExtraOf(kind string, u *unstructured.Unstructured) int {
+	lim, _, _ := unstructured.NestedInt64(u.Object, "spec", "revisionHistoryLimit")
+	probe := &c20World{scheme: w.scheme, crds: map[string]bool{}, st: NewStore(w.scheme)}
+	probe.seedPkg(c20Pkg{Kind: kind, Name: u.GetName(), Raw: "x/y", Extra: int(lim)})
+	want := probe.st.Peek(c20PkgGK[kind], "", u.GetName())
+	if want != nil && mustJSON(c20PkgForeign(want)) == mustJSON(c20PkgForeign(u)) {
+		return int(lim)
+	}
+	return -1
 }
 
 func (w *c20World) seedCrd(x c20Crd) {
@@ -546,8 +595,7 @@ func (w *c20World) canon(s *c20Scn) c20Store {
 	for _, k := range []string{"P", "C", "F"} {
 		for _, u := range st.OfKind(c20PkgGK[k]) {
 			raw, _, _ := unstructured.NestedString(u.Object, "spec", "package")
-			lim, _, _ := unstructured.NestedInt64(u.Object, "spec", "revisionHistoryLimit")
-			out.Pkgs = append(out.Pkgs, c20Pkg{Kind: k, Name: u.GetName(), Raw: raw, Ref: c20Parse(raw), Extra: int(lim)})
+			out.Pkgs = append(out.Pkgs, c20Pkg{Kind: k, Name: u.GetName(), Raw: raw, Ref: c20Parse(raw), Extra: w.pkgExtraOf(k, u)})
 		}
 	}
 	for _, u := range st.OfKind(c20GKCRD) {
